@@ -62,6 +62,19 @@ func genC12(g *gen, tier string) *Scenario {
 			ops = append(ops, Op{Kind: "get", Key: op.Key})
 		}
 	}
+	if n > 0 && g.pct(70) {
+		// enough reads (the lossy read buffer hands hits to the policy 16 at a time) for entries to be
+		// promoted to the protected region, so that every block type appears in the stream
+		var keys []int
+		for _, o := range ops {
+			if o.Kind == "set" {
+				keys = append(keys, o.Key)
+			}
+		}
+		for i := g.rng(20, 70); i > 0; i-- {
+			ops = append(ops, Op{Kind: "get", Key: keys[g.n(len(keys))]})
+		}
+	}
 	if (tier == "thorough" && g.pct(2)) || os.Getenv("VERIF_FORCE_MULTIBLOCK") != "" {
 		// a stream spanning several 4 MiB blocks: ~170 k entries
 		sc.Family = "stream-multi-block"
@@ -119,6 +132,9 @@ func setupC12(env *simEnv) {
 		alt := uint64(rd.Sc.Params["altversion"])
 		S := internal.Snapshot(rd.Store)
 		saved := savedSet(S)
+		for _, rg := range S.Regions {
+			probeN("c12.saved-in-"+rg.Name, len(rg.Entries))
+		}
 		disk := newSimDisk()
 		if err := env.api.save(version, disk.writer(0)); err != nil {
 			rd.violate("C12/harness/save-failed", err.Error())
